@@ -155,10 +155,10 @@ def g_grid(g, rng, tier):
     for _ in range(3 if tier == "quick" else 40):
         nx, ny = rng.randint(1, 30), rng.randint(1, 30)
         g.add("grid", "valid", dict(nx=nx, ny=ny, n=nx * ny, **lay("", (4, 0, 0))))
-    # the initialiser writes x, 0, y, 0 whatever the state size: the states of the 1-D and 3-D motion models
-    # (enumerated options of the API) have 2 and 6 rows
-    for nx, ny in ((1, 1), (2, 2), (2, 3)):
-        for l in ((2, 0, 0), (6, 0, 0), (3, 2, 0)):
+    # states that are not (x, vx, y, vy): the states of the 1-D and 3-D motion models (enumerated options of the API) have
+    # 2 and 6 rows; the initialiser must refuse them (return false).  The tag names the finding a reintroduction gets.
+    for nx, ny in ((1, 1), (2, 2), (2, 3), (4, 4)):
+        for l in ((2, 0, 0), (6, 0, 0), (3, 2, 0), (1, 1, 0), (1, 1, 1)):
             g.add("grid", "valid", dict(nx=nx, ny=ny, n=nx * ny, **lay("", l)), tag="state-not-4d")
 
 
@@ -457,6 +457,10 @@ def compare(case, impl, model):
     d = []
     mv, me, ms = model_verdict(model)
     iv, ie = word1(impl, "verdict"), word1(impl, "entry")
+    if case.meta.get("cls") == "outside":
+        # the library did not fail (it ran through, returned false or threw): never a difference
+        OUTSIDE["outside_accepted" if mv == "fails" else "outside_agree_no_failure"] += 1
+        return d
     if mv == "fails":
         if case.kind == "lifetime":
             return d
@@ -474,6 +478,8 @@ def oracle(case, impl, model):
     """Property clauses on an implementation that reported nothing: the case must not have thrown for a valid
     configuration, exhaustion must have been reported by the return value, descriptors must agree with storage."""
     v = []
+    if case.meta.get("cls") == "outside":
+        return v
     iv, ie = word1(impl, "verdict"), word1(impl, "entry")
     o = [int(x) for x in (impl.get("obs") or [])]
     if case.meta.get("cls") == "valid" and iv == "threw":
@@ -566,6 +572,8 @@ def report_class(info):
 CLASS_OF_OP = {"mul": {"product"}, "same": {"size-mismatch", "not-square"}, "blk": {"block"}, "idx": {"block", "index", "empty"},
                "comma": {"comma-initializer"}, "div": {"crash", "FPE", "ubsan-division-by-zero"}, "pop": {"crash", "SEGV", "heap-buffer-overflow", "eigen-assert"}}
 ALL_SITES, FAILED_SITES, CLASS_CHECKED = set(), set(), [0, 0]
+# 'outside' cases (inputs outside the property's quantifier) are informative only: hardening the code there must not alarm
+OUTSIDE = {"outside_failed_as_predicted": 0, "outside_failed_elsewhere": 0, "outside_accepted": 0, "outside_agree_no_failure": 0}
 
 
 def note_sites(model):
@@ -582,6 +590,11 @@ def on_crash(case, info, model):
     mv, me, ms = model_verdict(model)
     ie = entry_of(info)
     rc = report_class(info)
+    if case.meta.get("cls") == "outside":
+        want = CLASS_OF_OP.get(word1(model, "opclass") if model is not None else "", set())
+        same = mv == "fails" and me == ie and (rc in want or (rc.startswith("ubsan-") and word1(model, "opclass") in ("blk", "idx")))
+        OUTSIDE["outside_failed_as_predicted" if same else "outside_failed_elsewhere"] += 1
+        return []
     if mv == "fails" and me == ie and case.kind != "lifetime":
         # same entry point: the kind of failing precondition must correspond too
         want = CLASS_OF_OP.get(word1(model, "opclass"), set())
@@ -600,7 +613,7 @@ def on_crash(case, info, model):
         return [(signature(case, ie, ms), "valid configuration; the model predicts the failure at site %s; %s" % (ms, detail))]
     if mv == "fails":
         return [("C14:correspondence:%s" % ie, "model fails in %s (site %s) but the implementation reports in %s; %s" % (me, ms, ie, detail))]
-    return [("C14:%s:%s" % (ie, rc), "the model says %s but the implementation reports: %s" % (mv, detail))]
+    return [("C14:%s:%s" % (ie, case.meta.get("tag") or rc), "the model says %s but the implementation reports (%s): %s" % (mv, rc, detail))]
 
 
 def nontrivial(c):
@@ -627,12 +640,12 @@ def histogram(cases):
     return {"kind": h, "class": cls, "open_item_cases": tags,
             "model_site_labels_executed": len(ALL_SITES), "model_site_labels_failing_in_some_case": len(FAILED_SITES & ALL_SITES),
             "site_labels_never_failing": never,
-            "failing_cases_with_class_compared": CLASS_CHECKED[0], "class_mismatches": CLASS_CHECKED[1]}
+            "failing_cases_with_class_compared": CLASS_CHECKED[0], "class_mismatches": CLASS_CHECKED[1], **OUTSIDE}
 
 
 REQUIRED_THEOREMS = ["C14_WhiteNoiseAcceleration_safe", "C14_SimulatedStateModel_safe", "C14_bufferData_exhaustion_reported",
                      "C14_SimulatedLinearSensor_safe", "C14_HistoryBuffer_safe", "C14_InitSurveillanceAreaGrid_safe",
-                     "C14_InitSurveillanceAreaGrid_state_2d_refuted", "C14_InitSurveillanceAreaGrid_state_6d_refuted", "C14_sigma_point_safe",
+                     "C14_InitSurveillanceAreaGrid_state_2d_safe", "C14_InitSurveillanceAreaGrid_state_6d_safe", "C14_sigma_point_safe",
                      "C14_augmentWithNoise_safe", "C14_unscented_transform_safe", "C14_unscented_transform_additive_measurement_failed_safe",
                      "C14_KFPrediction_safe", "C14_KFCorrection_safe", "C14_UKFPrediction_additive_safe", "C14_UKFPrediction_generic_safe",
                      "C14_UKFCorrection_safe", "C14_UKFCorrection_quaternion_measurement_safe", "C14_UKFCorrection_quaternion_state_refuted",
@@ -665,7 +678,7 @@ LEVEL_TEXT = ("Proof of a shape calculus: for every configuration (unbounded dim
               "same configurations through the library with Eigen's assertions on and under ASan/UBSan and comparing verdict, failing entry point and "
               "observable shapes / return values.")
 LEVEL_NOTE = ("The shape programs are hand transcriptions. Their tie to the code is sampled (exhaustive over the enumerated options, seeded random "
-              "beyond) and consists of: equality of verdict (safe / threw / fails), of the failing entry point, of the KIND of failing precondition "
+              "beyond) and consists, on the valid cases, of: equality of verdict (safe / threw / fails), of the failing entry point, of the KIND of failing precondition "
               "(product, size mismatch, block, index, comma initialiser, division) and of the observable shapes / return values, under Eigen "
               "assertions and under ASan+UBSan (both tiers). It is NOT a site-by-site trace comparison: a redirected eigen_assert sees neither "
               "operand sizes nor the calling line, and Eigen's decompositions evaluate thousands of internal assertions of the same kinds. A site "
@@ -682,6 +695,8 @@ LEVEL_NOTE = ("The shape programs are hand transcriptions. Their tie to the code
               "copyable nor movable (checked on every run). Not modelled: standalone GaussianMixture / ParticleSet constructors, resize and element "
               "accessors (C11's subject; used here only through the steps), measure(), the logger. Degenerate configurations are outside the "
               "validity premises, modelled as failing items where the code divides (SUKF sub-measurement size 0, empty noise covariance in the UVR "
-              "density) and checked for agreement: empty particle sets, prior share 1, inputs whose shape differs from the declared description. "
+              "density); empty particle sets, prior share 1, inputs whose shape differs from the declared description. On these 'outside' cases "
+              "agreement of model and code is only COUNTED in the evidence (failed as predicted / failed elsewhere / accepted), never reported, so "
+              "that hardening the code there raises no alarm. "
               "DESIGN.md's plan to re-run the generators of the other properties under the assertion build was NOT carried out: only C14's own "
               "generators run under these builds.")
